@@ -609,15 +609,13 @@ unit(name="SrcMyersSimpleNew", props="properties C09, C10", file="src/pattern_ma
      imports=["RbV.Basic.RsSemWord", "RbV.Basic.RsSemGenlong"], word_types=pm.MYERS_WORDS, type_paths=pm.MYERS_PATHS,
      structs=pm.MYERS_STRUCTS, aliases=AMB_ALIASES,
      functions=[dict(name="Myers::new_ambig", lean="newAmbig", header=NEW_AMBIG_HDR, params=NEW_AMBIG_PARAMS,
-                     ret="([T; 256], T, DistType, Vec<State>)", struct_fields={"Myers": S_MYERS}, shadow_fresh=True,
-                     theorem="RbV.Thm.GenSrcMyersNew.newAmbig_eq_model"),
+                     ret="([T; 256], T, DistType, Vec<State>)", struct_fields={"Myers": S_MYERS}, shadow_fresh=True),
                 dict(name="Myers::new", lean="new", header=NEW_HDR, params=[("pattern", "&[u8]")],
                      ret="([T; 256], T, DistType, Vec<State>)",
                      locals={},
                      calls={"Self::new_ambig": dict(lean="newAmbig", extra=["w", "wd"],
                                                     args=["&[u8]", "Option<&AmbMap>", "Option<&[u8]>"],
-                                                    ret="([T; 256], T, DistType, Vec<State>)")},
-                     theorem="RbV.Thm.GenSrcMyersNew.new_eq_model")])
+                                                    ret="([T; 256], T, DistType, Vec<State>)")})])
 
 unit(name="SrcMyersLongCtor", props="properties C09, C10", file="src/pattern_matching/myers/long.rs",
      imports=["RbV.Basic.RsSemWord", "RbV.Basic.RsSemGenlong"], word_types={"T": "w"}, type_paths={"T": "T"},
@@ -629,8 +627,7 @@ unit(name="SrcMyersLongCtor", props="properties C09, C10", file="src/pattern_mat
                      ret="(Vec<Peq>, usize, Vec<State>)",
                      calls={"Self::new_ambig": dict(lean="newAmbig", extra=["w"],
                                                     args=["&[u8]", "Option<&AmbMap>", "Option<&[u8]>"],
-                                                    ret="(Vec<Peq>, usize, Vec<State>)")},
-                     theorem="RbV.Thm.GenSrcMyersNew.long_new_eq_newAmbig")])
+                                                    ret="(Vec<Peq>, usize, Vec<State>)")})])
 
 
 
@@ -645,25 +642,21 @@ unit(name="SrcMyersBuilder", props="properties C09, C10", file="src/pattern_matc
      aliases=AMB_ALIASES,
      functions=[dict(name="MyersBuilder::ambig", lean="ambig",
                      header="pub fn ambig<I, B>(&mut self, byte: u8, equivalents: I) -> &mut Self where I: IntoIterator<Item = B>, B: Borrow<u8>,",
-                     self_fields=BUILDER_F, params=[("byte", "u8"), ("equivalents", "&[u8]")], ret=None, locals={"eq": "Vec<u8>"},
-                     theorem="RbV.Thm.GenSrcMyersNew.ambig_eq_model"),
+                     self_fields=BUILDER_F, params=[("byte", "u8"), ("equivalents", "&[u8]")], ret=None, locals={"eq": "Vec<u8>"}),
                 dict(name="MyersBuilder::text_wildcard", lean="textWildcard",
                      header="pub fn text_wildcard(&mut self, wildcard: u8) -> &mut Self",
-                     self_fields=BUILDER_F, params=[("wildcard", "u8")], ret=None,
-                     theorem="RbV.Thm.GenSrcMyersNew.textWildcard_eq_model"),
+                     self_fields=BUILDER_F, params=[("wildcard", "u8")], ret=None),
                 dict(name="MyersBuilder::build", lean="build", header=BUILD_HDR, self_fields=BUILDER_F,
                      params=[("pattern", "&[u8]")], ret="([T; 256], T, DistType, Vec<State>)",
                      calls={"Myers::new_ambig": dict(lean="RbV.Gen.SrcMyersSimpleNew.newAmbig", extra=["w", "wd"],
                                                      args=["&[u8]", "Option<&AmbMap>", "Option<&[u8]>"],
-                                                     ret="([T; 256], T, DistType, Vec<State>)")},
-                     theorem="RbV.Thm.GenSrcMyersNew.build_eq_model"),
+                                                     ret="([T; 256], T, DistType, Vec<State>)")}),
                 dict(name="MyersBuilder::build_long", lean="buildLong", header=BUILD_LONG_HDR, self_fields=BUILDER_F,
                      params=[("pattern", "&[u8]")], ret="(Vec<Peq>, usize, Vec<State>)",
                      structs={"State": [("pv", "T"), ("mv", "T"), ("dist", "usize")]},
                      calls={"MyersLong::new_ambig": dict(lean="RbV.Gen.SrcMyersLongCtor.newAmbig", extra=["w"],
                                                          args=["&[u8]", "Option<&AmbMap>", "Option<&[u8]>"],
-                                                         ret="(Vec<Peq>, usize, Vec<State>)")},
-                     theorem="RbV.Thm.GenSrcMyersNew.buildLong_eq_model")])
+                                                         ret="(Vec<Peq>, usize, Vec<State>)")})])
 
 
 
